@@ -26,6 +26,106 @@ def parse_vtu(path):
     return out
 
 
+
+_DT = {"Float64": "d", "Float32": "f", "Int64": "q", "UInt64": "Q", "Int32": "i", "UInt32": "I", "Int16": "h", "UInt16": "H", "Int8": "b", "UInt8": "B"}
+
+
+def parse_vtu_binary(path):
+    """reader for the four binary write modes of the VTU writer (Base64Inline, Base64Appended, RawBinary, RawBinaryCompressed):
+    returns the same structure as parse_vtu with numbers instead of tokens; raises ValueError when an array is not where the
+    file announces it"""
+    import base64
+    import struct
+    import zlib
+    raw = open(path, "rb").read()
+    k = raw.find(b"<AppendedData")
+    blob = None
+    if k >= 0:
+        us = raw.find(b"_", k)
+        end = raw.rfind(b"</AppendedData>")
+        if us < 0 or end < 0:
+            raise ValueError("AppendedData section without payload")
+        blob = raw[us + 1:end]
+        enc = b'encoding="raw"' in raw[k:us] and "raw" or "base64"
+        xml = raw[:k] + b"</VTKFile>"
+    else:
+        xml = raw
+    root = ET.fromstring(xml)
+    compressed = root.get("compressor") is not None
+    if root.get("header_type", "UInt64") != "UInt64":
+        raise ValueError("unexpected header type " + str(root.get("header_type")))
+    piece = root.find("UnstructuredGrid/Piece")
+    out = {"ncells": int(piece.get("NumberOfCells")), "npoints": int(piece.get("NumberOfPoints")), "data": {}}
+
+    def values(da):
+        code = _DT[da.get("type")]
+        size = struct.calcsize(code)
+        fmt = da.get("format")
+        if fmt == "ascii":
+            return [float(x) if code in "df" else int(x) for x in da.text.split()]
+        if fmt == "binary":
+            txt = "".join(da.text.split())
+            n = struct.unpack("<Q", base64.b64decode(txt[:12]))[0]
+            body = base64.b64decode(txt[12:])
+            if len(body) != n:
+                raise ValueError("array %s: header announces %d bytes, %d present" % (da.get("Name"), n, len(body)))
+        elif fmt == "appended":
+            off = int(da.get("offset"))
+            if enc == "base64":
+                head = base64.b64decode(blob[off:off + 12])
+                n = struct.unpack("<Q", head[:8])[0]
+                if n > len(blob):
+                    raise ValueError("array %s: no array header at the announced offset %d" % (da.get("Name"), off))
+                tot = ((n + 8 + 2) // 3) * 4
+                body = base64.b64decode(blob[off:off + tot])[8:]
+                if len(body) != n:
+                    raise ValueError("array %s: offset %d does not point at an array of the announced size" % (da.get("Name"), off))
+            elif not compressed:
+                n = struct.unpack("<Q", blob[off:off + 8])[0]
+                body = blob[off + 8:off + 8 + n]
+                if len(body) != n:
+                    raise ValueError("array %s: offset %d does not point at an array of the announced size" % (da.get("Name"), off))
+            else:
+                nb, bs, last = struct.unpack("<QQQ", blob[off:off + 24])
+                if nb > 1 << 20:
+                    raise ValueError("array %s: no block header at offset %d" % (da.get("Name"), off))
+                sizes = struct.unpack("<%dQ" % nb, blob[off + 24:off + 24 + 8 * nb])
+                p = off + 24 + 8 * nb
+                body = b""
+                for sz in sizes:
+                    body += zlib.decompress(blob[p:p + sz])
+                    p += sz
+        else:
+            raise ValueError("unknown array format " + str(fmt))
+        if len(body) % size:
+            raise ValueError("array %s: %d bytes are not a whole number of %s" % (da.get("Name"), len(body), da.get("type")))
+        return list(struct.unpack("<%d%s" % (len(body) // size, code), body))
+
+    for da in piece.find("PointData").findall("DataArray"):
+        out["data"][da.get("Name")] = values(da)
+    out["points"] = values(piece.find("Points/DataArray"))
+    for da in piece.find("Cells").findall("DataArray"):
+        out[da.get("Name")] = [int(x) for x in values(da)]
+    return out
+
+
+def same_as_ascii(binv, asc):
+    """the decoded binary file carries what the ASCII file of the same run prints (numbers as printed with 6 significant digits)"""
+    if (binv["ncells"], binv["npoints"]) != (asc["ncells"], asc["npoints"]):
+        return "%d cells / %d points instead of %d / %d" % (binv["ncells"], binv["npoints"], asc["ncells"], asc["npoints"])
+    for k in ("connectivity", "offsets", "types"):
+        if binv[k] != asc[k]:
+            return "%s differs" % k
+    if [cxx_g(v) for v in binv["points"]] != [cxx_g(float(t)) for t in asc["points"]]:
+        return "point coordinates differ"
+    if sorted(binv["data"]) != sorted(asc["data"]):
+        return "data sets %s instead of %s" % (sorted(binv["data"]), sorted(asc["data"]))
+    for name, arr in asc["data"].items():
+        if [cxx_g(float(v)) for v in binv["data"][name]] != [cxx_g(float(t)) for t in arr]:
+            return "data set %s differs" % name
+    return None
+
+
 def wellformed(v, dim, what):
     errs = []
     nv = 4 if dim == 2 else 8
@@ -187,6 +287,57 @@ def run(chk):
         if pos:
             r["queries"] = [(cs.p2 if dim == 2 else cs.p3)(slot, p, dep, ps) for p, dep in pos]
             r["ps"] = ps
+    # every write mode of the VTU writer: the same world and grid written as ASCII and in each binary mode must carry the same mesh
+    # and the same node values (full, filtered and by-tag files); node and cell counts in every residue class modulo 3 (base64)
+    sizes = [(4, 2, 3), (2, 3, 4), (7, 2, 3), (3, 2, 2)]
+    for bi in range(4 if quick else 24):
+        rng.seed("%d/c18-2/%d" % (chk.seed, bi))
+        dim = 2 if bi % 2 == 0 else 3
+        wj, _ = area_world(rng, spherical=False, cross=True)
+        wj.pop("force surface temperature", None)
+        sanitize_numbers(wj)
+        nx, ny, nz = sizes[bi % len(sizes)]
+        c0 = wj["features"][0]["coordinates"][0] if wj["features"] else [0.0, 0.0]
+        if dim == 2:
+            g = {"x_min": -1e5, "x_max": 6e5, "z_min": 5e5, "z_max": 1000e3}
+        else:
+            g = {"x_min": round(c0[0] - 4e5), "x_max": round(c0[0] + 4e5), "y_min": round(c0[1] - 4e5), "y_max": round(c0[1] + 4e5), "z_min": 6e5, "z_max": 1000e3}
+        outs = {}
+        for fmt in ("ASCII", "Base64Inline", "Base64Appended", "RawBinary", "RawBinaryCompressed"):
+            lines = ["grid_type = cartesian", "dim = %d" % dim, "compositions = 2", "vtu_output_format = %s" % fmt]
+            lines += ["%s = %r" % (k, v) for k, v in g.items()] + ["n_cell_x = %d" % nx, "n_cell_y = %d" % ny, "n_cell_z = %d" % nz]
+            d = os.path.join(base, "b%d_%s" % (bi, fmt))
+            os.makedirs(d)
+            json.dump(wj, open(os.path.join(d, "w.wb"), "w"))
+            open(os.path.join(d, "g.grid"), "w").write("\n".join(lines) + "\n")
+            rc, o, e = common.sh([exe, "-j", "2", "--filtered", "--by-tag", "w.wb", "g.grid"], cwd=d, timeout=900)
+            chk.evaluations += 1
+            rep = {"world": wj, "grid": lines, "threads": 2}
+            files = sorted(f for f in os.listdir(d) if f.endswith(".vtu"))
+            if rc != 0 or "w.vtu" not in files:
+                viol.append(("gwb-grid fails (rc=%d) with vtu_output_format = %s: %s" % (rc, fmt, (o + e)[-300:]), rep))
+                continue
+            outs[fmt] = (d, files, rep)
+        if "ASCII" not in outs:
+            continue
+        da, fa, _r = outs["ASCII"]
+        for fmt, (d, files, rep) in outs.items():
+            if fmt == "ASCII":
+                continue
+            if files != fa:
+                viol.append(("vtu_output_format = %s writes the files %s, ASCII writes %s" % (fmt, files, fa), rep))
+                continue
+            for fn in files:
+                av = parse_vtu(os.path.join(da, fn))
+                try:
+                    why = same_as_ascii(parse_vtu_binary(os.path.join(d, fn)), av)
+                except Exception as ex:
+                    why = "not readable: %s" % ex
+                chk.nontriv((bi, fmt, fn))
+                if why:
+                    viol.append(("%s written with vtu_output_format = %s is not the mesh / the values of the ASCII file of the same run (%d points, %d cells): %s"
+                                 % (fn, fmt, av["npoints"], av["ncells"], why), rep))
+                    break
     impl, _ = cs.run(model=False)
     chk.evaluations += len(impl)
     # model connectivity (Grid.v) for the Cartesian boxes, the chunks and the annulus
